@@ -1,10 +1,89 @@
-/- driver for C09 : to be filled in (stub keeps Main.lean compiling) -/
+/- driver for C09 (ensemble solvers: point generators and bookkeeping), Float instantiation of Model/Ensemble -/
 import MysticVerif.Basic.Proto
+import MysticVerif.Model.Ensemble
 
 namespace MysticVerif.DrvC09
-open MysticVerif
+open MysticVerif MysticVerif.Ens
+
+instance : NatCast Float := ⟨Float.ofNat⟩
+
+def parseFss (v : Val) : Option (List (List Float)) := do
+  let l ← v.asList?
+  l.mapM Val.asFloats?
+
+def showErr : Ens.Err → String
+  | .index => "err index"
+  | .zerodiv => "err zerodiv"
+  | .type => "err type"
+
+def parseOptNat : Val → Option (Option Nat)
+  | .sym "none" => some none
+  | v => (v.asNat?).map some
+
+/-- `(e x evals gens id)` -/
+def parseMember : Val → Option (Member (List Float) Float)
+  | .list [e, x, ev, g, i] => do
+    pure ⟨← e.asFloat?, ← x.asFloats?, ← ev.asNat?, ← g.asNat?, ← i.asNat?⟩
+  | _ => none
+
+def showMember (m : Member (List Float) Float) : String :=
+  s!"id={m.id} e={pF m.bestE} x={pFs m.bestX} evals={m.evals} gens={m.gens}"
 
 def handle : Handler
+  | .sym "grid" :: args => Id.run do
+    let some q := (kw? args "q").bind parseFss | return "bad-op"
+    match gridpts q with
+    | none => return "err index"
+    | some pts => return s!"ok n={pts.length} pts={pFss pts}"
+  | .sym "lattice" :: args => Id.run do
+    let some dim := (kw? args "dim").bind Val.asNat? | return "bad-op"
+    let some lo := (kw? args "lower").bind Val.asFloats? | return "bad-op"
+    let some hi := (kw? args "upper").bind Val.asFloats? | return "bad-op"
+    let some nb := (kw? args "nbins").bind Val.asNats? | return "bad-op"
+    match latticePoints dim lo hi nb with
+    | .error e => return showErr e
+    | .ok pts => return s!"ok n={pts.length} pts={pFss pts}"
+  | .sym "samples" :: args => Id.run do
+    let some lb := (kw? args "lb").bind Val.asFloats? | return "bad-op"
+    let some ub := (kw? args "ub").bind Val.asFloats? | return "bad-op"
+    let some npts := (kw? args "npts").bind Val.asNat? | return "bad-op"
+    let some us := (kw? args "us").bind parseFss | return "bad-op"
+    match samplepts lb ub npts us with
+    | .error e => return showErr e
+    | .ok pts => return s!"ok n={pts.length} pts={pFss pts}"
+  | .sym "rbin" :: args => Id.run do
+    let some n := (kw? args "N").bind Val.asNat? | return "bad-op"
+    let some ndim := (kw? args "ndim").bind parseOptNat | return "bad-op"
+    let some ones := (kw? args "ones").bind Val.asBool? | return "bad-op"
+    let some exact := (kw? args "exact").bind Val.asBool? | return "bad-op"
+    let some keys := (kw? args "keys").bind Val.asFloats? | return "bad-op"
+    let ka := keys.toArray
+    match randomlyBin (fun i => ka.getD i 0.0) n ndim ones exact with
+    | .typeError => return "err type"
+    | .ok bins draws => return s!"ok bins={pNs bins} draws={draws}"
+  | .sym "best" :: args => Id.run do
+    let some ms := (kw? args "members").bind Val.asList? |>.bind (·.mapM parseMember) | return "bad-op"
+    let some pv := kw? args "prev" | return "bad-op"
+    let prev : Option (Option (Member (List Float) Float)) :=
+      match pv with
+      | .sym "none" => some none
+      | v => (parseMember v).map some
+    let some prev := prev | return "bad-op"
+    match updateBest prev ms with
+    | none => return "err index"
+    | some b =>
+      return s!"ok {showMember b} total={totalEvals ms} iters={totalIters ms} all={pNs (allEvals ms)} n={ms.length}"
+  | .sym "count" :: args => Id.run do
+    let c : Option Count :=
+      match kw? args "npts", kw? args "nbinsInt", kw? args "nbins" with
+      | some v, _, _ => v.asNat?.map Count.npts
+      | _, some v, _ => v.asNat?.map Count.nbinsInt
+      | _, _, some v => v.asNats?.map Count.nbinsTuple
+      | _, _, _ => none
+    let some c := c | return "bad-op"
+    match memberCount c with
+    | none => return "err type"
+    | some n => return s!"ok n={n}"
   | _ => "bad-op"
 
 end MysticVerif.DrvC09
